@@ -29,11 +29,54 @@ def tlc_workers():
     return int(v) if v else "auto"
 
 
+def _cache_file(cfg: str) -> str:
+    import hashlib
+    import os
+    from .tlc import SPEC_DIR, JAR, VERIF
+    hs = hashlib.sha256()
+    with open(os.path.join(SPEC_DIR, "Patches.tla"), "rb") as fh:
+        hs.update(fh.read())
+    hs.update(cfg.encode())
+    hs.update(str(os.path.getsize(JAR)).encode())
+    d = os.environ.get("VF_CACHE") or os.path.join(VERIF, ".cache", "patches")
+    os.makedirs(d, exist_ok=True)
+    return os.path.join(d, hs.hexdigest()[:24] + ".json.gz")
+
+
 def enumerate_cases(consts: Dict[str, Any], timeout: int = 1500, extra_inv=()):
+    """TLC run of Patches over the given scope (invariants checked, one record per case emitted).
+
+    The result depends only on the specification and the constants, never on the code under test, so it is
+    cached by content hash of (Patches.tla, cfg); a hit restores TLC's own counts of the run that produced it
+    and is marked `cached` (VF_NO_CACHE=1 forces a fresh run)."""
+    import gzip
+    import json
+    import os
+    from .tlc import TLCRun
+
     c = dict(consts)
     c.setdefault("EmitOn", True)
-    return run_tlc("Patches", cfg_text(constants=c, invariants=INVARIANTS + list(extra_inv)), timeout=timeout,
-                   workers=tlc_workers(), heap="8g")
+    cfg = cfg_text(constants=c, invariants=INVARIANTS + list(extra_inv))
+    fn = _cache_file(cfg)
+    if os.path.exists(fn) and not os.environ.get("VF_NO_CACHE"):
+        try:
+            with gzip.open(fn, "rt") as fh:
+                d = json.load(fh)
+            run = TLCRun(module="Patches", generated=d["generated"], distinct=d["distinct"], depth=d["depth"],
+                         wall_s=d["wall_s"], exit_code=0, records=d["records"], stdout="(cached)", cmd=d.get("cmd", ""))
+            run.cached = True
+            return run
+        except Exception:
+            pass
+    run = run_tlc("Patches", cfg, timeout=timeout, workers=tlc_workers(), heap="8g")
+    run.cached = False
+    if run.ok:
+        tmp = fn + f".{os.getpid()}.tmp"
+        with gzip.open(tmp, "wt", compresslevel=3) as fh:
+            json.dump({"generated": run.generated, "distinct": run.distinct, "depth": run.depth, "wall_s": run.wall_s,
+                       "records": run.records, "cmd": run.cmd}, fh)
+        os.replace(tmp, fn)
+    return run
 
 
 # ------------------------------------------------------------------ S->C concretisation
@@ -333,7 +376,7 @@ def jinja_templates(n: int, rnd: random.Random) -> List[Tuple[str, str]]:
     out = []
     for k in range(n):
         w = lambda: rnd.choice(WS)
-        shape = k % 10
+        shape = k % 11
         sel = rnd.choice(VIOL_SEL)
         if shape == 0:      # expression adjacent to a spacing violation
             t = f"{sel}{w()},{w()}{rnd.choice(EXPR)}{w()}from{w()}tbl{w()}"
@@ -354,6 +397,10 @@ def jinja_templates(n: int, rnd: random.Random) -> List[Tuple[str, str]]:
             t = f"select {rnd.choice(EXPR)}{w()},{rnd.choice(EXPR)} as Z from {rnd.choice(EXPR)}{w()}where  {rnd.choice(EXPR)}=1"
         elif shape == 8:    # indentation around block tags
             t = f"SELECT\na,\n{rnd.choice(IFO)}\nb,\n  {rnd.choice(ELSE)}\n      c,\n{rnd.choice(IFC)}\nd\nFROM tbl\n"
+        elif shape == 10:   # leading whitespace consumed by the first tag
+            first = rnd.choice(["{{- col }}", "{%- if true -%}", "{#- c -#}", "{%- set v = 1 -%}", "{{- 'SELECT' }}"])
+            t = f"{rnd.choice(['  ', '    ', ' ', chr(9)])}{first}{w()}{sel if 'SELECT' not in first else ' a'}  from tbl" + \
+                ("{% endif %}" if "if true" in first else "") + "\n"
         else:               # whitespace-control next to operators
             t = f"{sel}{w()}+{rnd.choice(EXPR)}{w()}AS s{rnd.choice(COMM)},{rnd.choice(EXPR)}||'x'  from tbl"
         out.append((f"gen{k}_s{shape}", t))
